@@ -121,6 +121,14 @@ Theorem schedule_independent_thm : forall (H : Type) art hc c1 c2 rounds fuel (h
   (fuel <= rounds)%nat -> m_drive H art hc c1 rounds fuel h st = m_drive H art hc c2 rounds fuel h st.
 Proof. intros. rewrite !resume_equiv_thm by assumption. reflexivity. Qed.
 
+(** energy is host state: whatever is charged, it is charged once - the remaining energy (and every
+    other part of the result) after an interrupted run equals that of the direct run *)
+Theorem energy_no_double_charge_thm : forall (H : Type) art (cost : hquery -> N) hc choose rounds fuel (e : N) (h : H) st,
+  (fuel <= rounds)%nat ->
+  fst (r_host (m_drive (N * H) art (metered_host cost hc) choose rounds fuel (e, h) st))
+  = fst (r_host (m_run_direct (N * H) art (metered_host cost hc) fuel (e, h) st)).
+Proof. intros. rewrite resume_equiv_thm by assumption. reflexivity. Qed.
+
 Lemma m_drive_count_fst : forall (H : Type) art hc choose rounds fuel (h : H) st,
   fst (m_drive_count H art hc choose rounds fuel h st) = m_drive H art hc choose rounds fuel h st.
 Proof. intros. unfold m_drive_count, m_drive. apply drive_count_fst. Qed.
